@@ -69,6 +69,9 @@ fn main() {
     let code = match args.id.as_str() {
         "C03" => props::structural::run("C03", &args),
         "C04" => props::structural::run("C04", &args),
+        "C14" => props::config::run(&args),
+        "C13" => props::names::run(&args),
+        "C19" => props::indexmaps::run(&args),
         "C02" => props::c02::run(&args),
         "C20" => props::features::run(&args),
         "C08" => props::modhist::run("C08", &args),
